@@ -22,6 +22,7 @@ import (
 	"testing"
 
 	"verif/internal/ev"
+	"verif/internal/sched"
 )
 
 // replayRequest is what a witness written by monitors 2 and 3 contains to
@@ -57,8 +58,13 @@ func loadReplay(r *ev.Run) *replayRequest {
 func TestCheck(t *testing.T) {
 	r := ev.Start("C07")
 	defer r.Finish()
-	r.SetRule(ruleChoices + " || " + ruleStore /* + " || " + ruleProtocol (monitor 1) */)
+	r.SetRule(ruleProtocol + " || " + ruleChoices + " || " + ruleStore)
 
+	if isProtocolReplay(r) {
+		// Witness of monitor 1: a stepped scheduler history.
+		sched.RunStepped(r, "C07", 0)
+		return
+	}
 	if rq := loadReplay(r); rq != nil {
 		// Re-run exactly one recorded case of monitor 2 or 3. No floors
 		// are declared in this mode.
@@ -67,21 +73,17 @@ func TestCheck(t *testing.T) {
 			replayChoices(r, rq.Witness.Case)
 		case "store":
 			replayStore(r, rq.Witness.Case)
+		case "":
 		default:
-			// MONITOR 1: add `case "protocol": replayProtocol(r, ...)` here.
 			r.Inconclusive("replay for monitor %q is not handled by this package", rq.Witness.Monitor)
 		}
 		return
 	}
 
-	// ------------------------------------------------------------------
-	// MONITOR 1 (linear protocol, scheduler harness) goes here:
-	//
-	//	runProtocol(r)
-	//
-	// It must not run concurrently with runStore: runStore reads the
-	// process-global Prometheus counters of BlobAccessMutableProtoStore.
-	// ------------------------------------------------------------------
+	// Monitor 1: linear Selector/Learner protocol inside the scheduler
+	// harness. (Runs before, never concurrently with, runStore: runStore
+	// reads process-global Prometheus counters.)
+	runProtocol(r)
 
 	// Monitor 2: well-formed choices (pure, high volume).
 	if !runChoices(r) {
